@@ -153,7 +153,7 @@ def main():
         print("MANIFEST.json written (jsonschema not available for validation)")
 
 
-HOOK_COMMITS = ["5734b20"]
+HOOK_COMMITS = ["5734b20", "9ae4f2c", "be0d14a", "0aa5701", "52c46bd"]
 
 if __name__ == "__main__":
     main()
